@@ -274,7 +274,7 @@ class XTokens(XFull):
             elif E_.branch(st, t == T['END_OF_FILE']):
                 r = T['END_OF_FILE']; st.x['toklog'] = st.x.get('toklog', ()) + (('tok', r),)
             else:
-                st.pc.append(z3.ULE(t, NT)); r = t
+                E_.assume(st, z3.ULE(t, NT)); r = t
                 st.x['toklog'] = st.x.get('toklog', ()) + (('tok', t),)
             st.x['ntok'] = n + 1
             return r
@@ -322,7 +322,7 @@ def run_token_job(X, ntok, first=None, prefix=None, pool=None, deadline_s=None):
     when given (work splitting), then END_OF_FILE"""
     pre = tokenize(prefix) if prefix else []
     names = pool or IDENT_POOL
-    E = X.engine([]); E.max_paths = 400000
+    E = X.engine([]); E.max_paths = 400000; E.max_steps = 3_000_000
     if deadline_s: E.deadline = time.time() + deadline_s
     T = X.TOK; NT = max(T.values())
     def log(st, item): st.x['toklog'] = st.x.get('toklog', ()) + (item,)
@@ -336,8 +336,8 @@ def run_token_job(X, ntok, first=None, prefix=None, pool=None, deadline_s=None):
             st.x['ntok'] = n + 1; return T[kind]
         if n >= len(pre) + ntok: return T['END_OF_FILE']
         t = z3.BitVec(f'tok{n}', 32)
-        if n == len(pre) and first is not None and not any(c is first_c for c in st.pc):
-            st.pc.append(first_c)
+        fixed = firsts.get(n - len(pre))
+        if fixed is not None and not any(c is fixed for c in st.pc): E_.assume(st, fixed)      # assume() also drops a cached model that contradicts it
         if E_.branch(st, t == T['IDENTIFIER']):
             k = E_.choose(st, len(names)); stubs.Str(E_, st, lx.add(X.foff[0])).assign_bytes(list(names[k])); r = T['IDENTIFIER']; log(st, ('id', names[k]))
         elif E_.branch(st, t == T['NUMBER']):
@@ -346,10 +346,12 @@ def run_token_job(X, ntok, first=None, prefix=None, pool=None, deadline_s=None):
             k = E_.choose(st, len(STRING_POOL)); stubs.Str(E_, st, lx.add(X.foff[2])).assign_bytes(list(STRING_POOL[k])); r = T['STRING']; log(st, ('str', STRING_POOL[k]))
         elif E_.branch(st, t == T['END_OF_FILE']): r = T['END_OF_FILE']; log(st, ('tok', r))
         else:
-            st.pc.append(z3.ULE(t, NT)); r = t; log(st, ('tok', t))
+            E_.assume(st, z3.ULE(t, NT)); r = t; log(st, ('tok', t))
         st.x['ntok'] = n + 1
         return r
-    first_c = (z3.BitVec(f'tok{len(pre)}', 32) == first) if first is not None else None
+    # work splitting: the kinds of the first symbolic tokens may be fixed (an int, or a tuple for the first few positions)
+    fl = () if first is None else (first if isinstance(first, tuple) else (first,))
+    firsts = {i: (z3.BitVec(f'tok{len(pre) + i}', 32) == v) for i, v in enumerate(fl)}
     E.stubs['_ZN4xcmp5Lexer9readTokenEv'] = readToken
     st = State(); b = st.alloc(8, 'bin-stream'); l = st.alloc(8, 'listing-stream')
     return E, E.run('xf_compile_tokens', [b, l], st)
@@ -386,7 +388,9 @@ def classify(X, E, rs, text_of):
             if not E.ti_derives(r.st, r.val.tinfo, Ptr(('g', '_ZTISt9exception'), 0)): out.append(('crash', "an exception that is not derived from std::exception escapes", txt(r.st)))
             elif any(e[0] == 'byte' for e in r.st.events): out.append(('partial-output', "a diagnostic is raised after output was emitted", txt(r.st)))
             continue
-        if r.kind == 'budget': out.append(('budget', "compilation does not finish within the engine's step, depth or time budget", txt(r.st))); continue
+        if r.kind == 'budget':
+            # depth: the engine's 400-frame limit (the native run decides); steps/deadline: the exploration is incomplete
+            out.append(('budget' if r.val == 'depth' else 'incomplete', f"compilation does not finish within the engine's {r.val or 'step'} budget", txt(r.st))); continue
         if r.kind == 'violation':
             cat = 'uninit' if r.val.kind == 'uninitialised' else 'crash'
             out.append((cat, f"{r.val.kind}: {r.val.msg} at {(getattr(r.val, 'where', None) or [''])[-1]}", txt(r.st, getattr(r.val, 'model', None)))); continue
